@@ -1,3 +1,4 @@
+#![feature(allocator_api)]
 use vstd::prelude::*;
 use core::num::NonZeroU8;
 use vstd::std_specs::iter::IteratorSpec;
@@ -12,7 +13,7 @@ impl PartialValue {
     pub uninterp spec fn sub_key(&self) -> Option<Seq<char>>;
     #[verifier::external_body] pub fn get_idx_sub_key(&self) -> (r: Option<String>) ensures (r is Some) == (self.sub_key() is Some), r is Some ==> r->Some_0@ == self.sub_key()->Some_0 { unimplemented!() }
 }
-pub enum OperationError { InvalidState, Backend }
+pub enum OperationError { InvalidState, Backend, ResourceLimit }
 // idlset::v2::IDLBitRange viewed as the set of entry ids it holds (ASSUMED: C03 / the idlset crate)
 #[verifier::external_body] pub struct IDLBitRange { _p: u8 }
 impl View for IDLBitRange { type V = Set<u64>; uninterp spec fn view(&self) -> Set<u64>; }
@@ -384,6 +385,98 @@ impl Backend {
             r matches Ok(x) ==> (forall|v: PartialValue, i: Option<NonZeroU8>| v.sub_key() == Some(sub_idx_key@) ==> #[trigger] idl_ok(old(self).idl.db(), FilterResolved::Enw(*attr, v, i), x.0)),
     { unimplemented!() }
 //@extract filter2idl
+}
+
+// ---- search / exists: how the candidate list is used ----
+//@extract Limits
+//@extract Filter
+//@extract FilterValidResolved
+impl Filter<FilterValidResolved> {
+//@extract to_inner
+}
+pub const FILTER_SEARCH_TEST_THRESHOLD: usize = @@const:FILTER_SEARCH_TEST_THRESHOLD@@;
+pub const FILTER_EXISTS_TEST_THRESHOLD: usize = @@const:FILTER_EXISTS_TEST_THRESHOLD@@;
+// a stored entry as the backend hands it out: its id and its content; entry_match_no_index is the reference per-entry test
+// (Entry::entry_match_no_index_inner has exactly the arms of `sem`; that correspondence is ASSUMED, see not_covered)
+#[verifier::external_body] #[verifier::reject_recursive_types(T)] pub struct Arc<T> { p: core::marker::PhantomData<T> }
+pub struct EntrySealedCommitted { _p: u8 }
+impl Arc<EntrySealedCommitted> {
+    pub uninterp spec fn id(&self) -> u64;
+    pub uninterp spec fn content(&self) -> EntryView;
+    #[verifier::external_body] pub fn entry_match_no_index(&self, filt: &Filter<FilterValidResolved>) -> (r: bool)
+        ensures r == sem(filt.state.inner, self.content()) { unimplemented!() }
+}
+// the entries are those of the ghost database, each id at most once
+pub open spec fn loaded_from(db: Db, v: Seq<Arc<EntrySealedCommitted>>) -> bool {
+    &&& forall|i: int| 0 <= i < v.len() ==> db.dom().contains((#[trigger] v[i]).id()) && v[i].content() == db[v[i].id()]
+    &&& forall|i: int, j: int| 0 <= i < v.len() && 0 <= j < v.len() && i != j ==> (#[trigger] v[i]).id() != (#[trigger] v[j]).id()
+}
+pub open spec fn ids_of(v: Seq<Arc<EntrySealedCommitted>>) -> Set<u64> { v.map_values(|e: Arc<EntrySealedCommitted>| e.id()).to_set() }
+impl IdlLayer {
+    // IdlArcSqliteTransaction::get_identry: loads exactly the stored entries whose id is in the list (all of them for AllIds) — ASSUMED
+    #[verifier::external_body] pub fn get_identry(&mut self, idl: &IdList) -> (r: Result<Vec<Arc<EntrySealedCommitted>>, OperationError>)
+        ensures final(self).db() == old(self).db(),
+            r matches Ok(v) ==> loaded_from(old(self).db(), v@) && ids_of(v@) =~= (match *idl {
+                IdList::AllIds => old(self).db().dom(),
+                IdList::Partial(s) => s@.intersect(old(self).db().dom()),
+                IdList::PartialThreshold(s) => s@.intersect(old(self).db().dom()),
+                IdList::Indexed(s) => s@.intersect(old(self).db().dom()) }) { unimplemented!() }
+}
+// `vec.into_iter().filter(f).collect::<Vec<_>>()`: the elements for which f returned true, in order, each kept at most as often as it
+// occurred (std documentation), through the closure's checked contract
+#[verifier::external_body] #[verifier::reject_recursive_types(T)] pub struct KvxFiltered<T> { p: core::marker::PhantomData<T> }
+impl<T> KvxFiltered<T> { pub uninterp spec fn kept(&self) -> Seq<T>;
+    #[verifier::external_body] pub fn collect(self) -> (r: Vec<T>) ensures r@ == self.kept() { unimplemented!() } }
+pub open spec fn is_subseq_by<T>(k: Seq<T>, v: Seq<T>, idx: Seq<int>) -> bool {
+    &&& idx.len() == k.len()
+    &&& forall|a: int| 0 <= a < k.len() ==> 0 <= #[trigger] idx[a] < v.len() && v[idx[a]] == k[a]
+    &&& forall|a: int, b: int| 0 <= a < b < k.len() ==> idx[a] < idx[b]
+}
+#[verifier::external_body] pub fn kvx_into_filter<T, F: Fn(&T) -> bool>(v: Vec<T>, f: F) -> (r: KvxFiltered<T>)
+    requires forall|i: int| 0 <= i < v@.len() ==> f.requires((&#[trigger] v@[i],))
+    ensures exists|idx: Seq<int>| #[trigger] is_subseq_by(r.kept(), v@, idx),
+            forall|a: int| 0 <= a < r.kept().len() ==> f.ensures((&#[trigger] r.kept()[a],), true),
+            forall|i: int| 0 <= i < v@.len() ==> f.ensures((&#[trigger] v@[i],), false) || r.kept().contains(v@[i]) { unimplemented!() }
+// the ids of the kept entries are the loaded ids that match, and they are still pairwise distinct
+pub proof fn lemma_filtered_ids(db: Db, f: FilterResolved, v: Seq<Arc<EntrySealedCommitted>>, k: Seq<Arc<EntrySealedCommitted>>)
+    requires loaded_from(db, v), exists|idx: Seq<int>| #[trigger] is_subseq_by(k, v, idx),
+        forall|a: int| 0 <= a < k.len() ==> sem(f, (#[trigger] k[a]).content()),
+        forall|i: int| 0 <= i < v.len() ==> !sem(f, (#[trigger] v[i]).content()) || k.contains(v[i]),
+    ensures loaded_from(db, k), ids_of(k) =~= ids_of(v).intersect(matches(db, f))
+{
+    lemma_matches_char(db, f);
+    let idx = choose|idx: Seq<int>| #[trigger] is_subseq_by(k, v, idx);
+    assert forall|a: int| 0 <= a < k.len() implies db.dom().contains((#[trigger] k[a]).id()) && k[a].content() == db[k[a].id()] by {
+        assert(v[idx[a]] == k[a]);
+    }
+    assert forall|a: int, b: int| 0 <= a < k.len() && 0 <= b < k.len() && a != b implies (#[trigger] k[a]).id() != (#[trigger] k[b]).id() by {
+        assert(v[idx[a]] == k[a] && v[idx[b]] == k[b]);
+        if a < b { assert(idx[a] < idx[b]); } else { assert(idx[b] < idx[a]); }
+    }
+    let kv = k.map_values(|e: Arc<EntrySealedCommitted>| e.id());
+    let vv = v.map_values(|e: Arc<EntrySealedCommitted>| e.id());
+    assert forall|id: u64| ids_of(k).contains(id) <==> (ids_of(v).contains(id) && matches(db, f).contains(id)) by {
+        if ids_of(k).contains(id) {
+            let a = choose|a: int| 0 <= a < kv.len() && kv[a] == id;
+            assert(k[a].id() == id);
+            assert(v[idx[a]] == k[a]);
+            assert(vv[idx[a]] == id);
+            assert(sem(f, k[a].content()));
+        }
+        if ids_of(v).contains(id) && matches(db, f).contains(id) {
+            let i = choose|i: int| 0 <= i < vv.len() && vv[i] == id;
+            assert(v[i].id() == id && v[i].content() == db[id]);
+            assert(k.contains(v[i]));
+            let a = choose|a: int| 0 <= a < k.len() && k[a] == v[i];
+            assert(kv[a] == id);
+        }
+    }
+}
+pub assume_specification<T, A: core::alloc::Allocator>[ Vec::<T, A>::shrink_to_fit ](v: &mut Vec<T, A>)
+    ensures final(v)@ == old(v)@;
+impl Backend {
+//@extract search
+//@extract exists
 }
 }
 fn main(){}
